@@ -506,3 +506,7 @@ def r_rank_leak(ctx):
 
 
 RULES.append(r_rank_leak)
+
+# the duplicate test of the assertion store compares 32-bit hashes that depend on the names: it must refuse loudly, never drop
+# (a silent drop makes the encoding depend on the names chosen) - R-BASE-STORE
+RULES.append(lambda ctx: __import__("rules.tasks", fromlist=["x"]).r_base_store(ctx))
